@@ -1586,3 +1586,77 @@ Lemma guarded_content_confined_fcache_lemma :
 Proof.
   intros. rewrite file_cache_transparent_lemma. apply guarded_content_confined_lemma; assumption.
 Qed.
+
+(** ---------------------------------------------------------------------------
+    The file that is read is named by decoding the request path exactly once ... *)
+Lemma single_decode_only_lemma p t :
+  served_file p = Ok (Some t) -> PathSan.percent_decode p = 47 :: t.
+Proof.
+  unfold served_file, PathSan.decoded_for_use.
+  destruct (PathSan.utf8_valid (PathSan.percent_decode p)); [|discriminate].
+  unfold PathSan.parse_uri. destruct (PathSan.percent_decode p) as [|c r]; [discriminate|].
+  destruct (c =? PathSan.c_slash) eqn:E; [|discriminate].
+  intros H; inversion H; subst. apply N.eqb_eq in E. rewrite E. reflexivity.
+Qed.
+
+(** ... and an [allow-ips] argument lists exactly the address it parses to: the client's own address, as kvarn's
+    accept loop hands it over - no header is consulted, an IPv4 address equals no IPv6 address. *)
+Lemma quad_eqb_eq x y : quad_eqb x y = true <-> x = y.
+Proof.
+  destruct x as [[[a b] c] d], y as [[[a' b'] c'] d']. unfold quad_eqb. rewrite !andb_true_iff, !N.eqb_eq.
+  split; [intros [[[-> ->] ->] ->]; reflexivity | intros H; inversion H; auto].
+Qed.
+Lemma groups_eqb_eq a c : groups_eqb a c = true <-> a = c.
+Proof.
+  revert c; induction a as [|x a IH]; intros [|y c]; cbn [groups_eqb]; try (split; [discriminate|discriminate]); [tauto|].
+  rewrite andb_true_iff, N.eqb_eq, IH. split; [intros [-> ->]; reflexivity | intros H; inversion H; auto].
+Qed.
+Lemma ip_eqb_eq a c : ip_eqb a c = true <-> a = c.
+Proof.
+  destruct a as [x|x], c as [y|y]; cbn [ip_eqb]; try (split; discriminate).
+  - rewrite quad_eqb_eq. split; [intros ->; reflexivity | intros H; inversion H; reflexivity].
+  - rewrite groups_eqb_eq. split; [intros ->; reflexivity | intros H; inversion H; reflexivity].
+Qed.
+Lemma listed_is_exact_lemma addr arg : arg_matches addr arg = true <-> parse_ip arg = Some (ip_of_addr addr).
+Proof.
+  unfold arg_matches. destruct (parse_ip arg) as [a|]; [|split; discriminate].
+  rewrite ip_eqb_eq. split; [intros ->; reflexivity | intros H; inversion H; reflexivity].
+Qed.
+Lemma address_families_disjoint_lemma addr arg :
+  arg_matches addr arg = true ->
+  match parse_ip arg with
+  | Some (IPv4 _) => addr < V6_BASE
+  | Some (IPv6 _) => V6_BASE <= addr
+  | None => False
+  end.
+Proof.
+  intros H. apply listed_is_exact_lemma in H. rewrite H. unfold ip_of_addr.
+  destruct (addr <? V4_BASE) eqn:E1; [apply N.ltb_lt in E1; unfold V4_BASE, V6_BASE in *; lia|].
+  destruct (addr <? V6_BASE) eqn:E2; [apply N.ltb_lt in E2; exact E2 | apply N.ltb_ge in E2; exact E2].
+Qed.
+
+(** Range is applied to the reply of [handle_cache] afterwards ([SendKind::send]): whatever byte range of whatever
+    reply of a history is sent, it contains the secret only for a permitted request *)
+Definition ranged_ok (fs : bytes -> option bytes) (secret : bytes) (prime : request -> request) (o : opx) (ob : obsx) : Prop :=
+  match o, ob with
+  | XReq r, XbReply rp _ => forall lo hi, contains_sub secret (slice lo hi (rx_body rp)) = true -> permitted fs (prime r)
+  | _, _ => True
+  end.
+Lemma ranged_reply_confined_lemma :
+  forall (fix_errline cors : bool) (fs : bytes -> option bytes) (errpage : N -> bytes)
+         (tmpl : list bytes -> bytes -> bytes) (secret : bytes),
+    (forall t c, fs t = Some c -> contains_sub secret c = true -> guarded t c = true) ->
+    (forall s, contains_sub secret (errpage s) = false) ->
+    (forall args b, contains_sub secret (tmpl args b) = true -> contains_sub secret b = true) ->
+    (cors = true -> contains_sub secret (ps_body cors_pst) = false) ->
+  forall cache_on ims_on fix_ovkey fix_clear fix_svary fix_qmkey fix_ims sfilter parse_ims prime override refuses
+         vary_tuple vary_header clear_alias now ops,
+    Forall2 (ranged_ok fs secret prime) ops
+      (run_g true true fix_errline cors fs errpage tmpl cache_on ims_on fix_ovkey fix_clear fix_svary fix_qmkey fix_ims
+             sfilter parse_ims prime override refuses vary_tuple vary_header clear_alias [] now ops).
+Proof.
+  intros fix_errline cors fs errpage tmpl secret H1 H2 H3 H4. intros.
+  eapply Forall2_mono; [|apply (guarded_content_confined_lemma fix_errline cors fs errpage tmpl secret H1 H2 H3 H4)].
+  intros o ob Ho. destruct o as [r|r| |ms], ob as [rp lg| |]; cbn [reply_ok ranged_ok] in *; auto.
+  intros lo hi Hs. apply Ho. unfold leaks. apply contains_sub_slice in Hs. rewrite Hs. reflexivity.
+Qed.
